@@ -23,7 +23,7 @@ ASSUMPTIONS = ["(b) requires recovery only of simple, well separated real roots 
 CONFIGS = ['scipy']
 BUDGET = {'quick': 20000, 'thorough': 600000}
 EXHAUSTIVE_NOTE = "degrees 0..8: all 2^(n+1) two-valued control assignments x (n+1) t values, exact Fractions"
-REQUIRED = ['grid', 'roots:cluster', 'roots:complex_pair', 'roots:simple_required', 'limit:common_zero', 'limit:does_not_exist', 'float_bezier']
+REQUIRED = ['grid', 'roots:cluster', 'roots:complex_pair', 'roots:simple_required', 'roots:straddling_pair_required', 'limit:common_zero', 'limit:does_not_exist', 'float_bezier']
 
 EPS = 2.0 ** -52
 VALS = [(F(-3), F(2)), (F(5), F(-1)), (F(1), F(7)), (F(-2), F(4)), (F(3), F(-5)), (F(6), F(1)), (F(-4), F(3)), (F(2), F(-6)), (F(7), F(-2))]
@@ -49,13 +49,17 @@ def roots_case(draw):
     deg = 0
     want = draw(st.integers(1, 8))
     while deg < want:
-        kind = draw(st.sampled_from(['simple', 'simple', 'simple', 'cluster', 'pair', 'edge']))
+        kind = draw(st.sampled_from(['simple', 'simple', 'simple', 'cluster', 'pair', 'edge', 'straddle']))
         if kind == 'simple':
             items.append(['simple'] + draw(dec3))
             deg += 1
         elif kind == 'edge':
             items.append(['simple'] + draw(st.sampled_from([[0, 1], [1, 1], [1, 1000000], [999999, 1000000], [-1, 1000000], [1000001, 1000000]])))
             deg += 1
+        elif kind == 'straddle' and deg + 2 <= want:
+            # two simple roots a few 1e-6 apart, one on either side of a boundary of the condition
+            items.append(['straddle', draw(st.integers(0, 3)), draw(st.sampled_from([2, 3, 4, 10, 100]))])
+            deg += 2
         elif kind == 'cluster' and deg + 2 <= want:
             k = draw(st.integers(2, min(3, want - deg)))
             items.append(['cluster'] + draw(dec3) + [k, draw(st.integers(6, 12))])
@@ -219,11 +223,18 @@ def check_roots(case, ctx):
     poly = [F(case['lead'][0], case['lead'][1])]       # highest first
     real_roots = []   # (value Fraction, role)
     has_cluster = has_pair = False
+    cond = case['cond']
+    lo, hi = F(case['lo'][0], case['lo'][1]), F(case['hi'][0], case['hi'][1])
     for it in case['items']:
         if it[0] == 'simple':
             r = F(it[1], it[2])
             poly = pmul(poly, [F(1), -r])
             real_roots.append((r, 'simple'))
+        elif it[0] == 'straddle':
+            b = [lo, hi][it[1] % 2] if cond == 'interval' else F(it[1] % 2)
+            for r in (b - F(it[2], 10 ** 6), b + F(it[2], 10 ** 6)):
+                poly = pmul(poly, [F(1), -r])
+                real_roots.append((r, 'simple'))
         elif it[0] == 'cluster':
             r0 = F(it[1], it[2])
             gap = F(1, 10 ** it[4])
@@ -244,8 +255,6 @@ def check_roots(case, ctx):
         ctx.count('roots:cluster')
     if has_pair:
         ctx.count('roots:complex_pair')
-    cond = case['cond']
-    lo, hi = F(case['lo'][0], case['lo'][1]), F(case['hi'][0], case['hi'][1])
     if cond == '01':
         got = ctx.lib('polyroots01', polyroots01, coeffs)
         inside = lambda r: 0 <= r <= 1
@@ -274,15 +283,22 @@ def check_roots(case, ctx):
         others = [x for x in allr if x is not r]
         if sum(1 for x in allr if x == r) > 1:
             continue
-        if any(abs(x - r) < F(1, 1000) for x in others):
-            continue
         if margin(r) < F(1, 10 ** 6):
             continue
+        near = [x for x in others if abs(x - r) < F(1, 1000)]
+        est_max, hit_tol = 1e-9, 1e-6
+        if near:
+            # a close neighbour that satisfies the condition as well may be merged with r (documented de-duplication);
+            # one that clearly violates it may not take r with it
+            if cond == 'all' or any(margin(x) > -F(1, 10 ** 6) or abs(x - r) < F(2, 10 ** 6) for x in near):
+                continue
+            gap = float(min(min(abs(x - r) for x in near), margin(r)))
+            est_max, hit_tol = gap / 60, gap / 3
         rf = float(r)
         # predicted rounding error of the root
         pd = abs(sum((deg - i) * coeffs[i] * rf ** (deg - i - 1) for i in range(deg)))
         sm = sum(abs(coeffs[i]) * abs(rf) ** (deg - i) for i in range(deg + 1))
-        if pd == 0 or deg * 8 * EPS * sm / pd > 1e-9:
+        if pd == 0 or deg * 8 * EPS * sm / pd > est_max:
             ctx.count('roots:skipped_ill_conditioned')
             continue
         # complex pairs whose real part is within 1e-3 and whose imaginary part is tiny act like cluster members
@@ -293,7 +309,9 @@ def check_roots(case, ctx):
         if near_pair:
             continue
         required += 1
-        hits = [g for g in got if abs(g - rf) <= 1e-6]
+        if near:
+            ctx.count('roots:straddling_pair_required')
+        hits = [g for g in got if abs(g - rf) <= hit_tol]
         if len(hits) != 1:
             where = 'lost' if not hits else 'duplicated'
             ctx.fail('roots/%s/%s%s%s' % (where, cond, '/cluster' if has_cluster else '', '/pair' if has_pair else ''),
